@@ -1,0 +1,84 @@
+//! Verification hooks (compiled only with `--cfg tsrun_verif`): thread-local
+//! counters that let an external harness measure, deterministically, the work
+//! done inside host-visible calls. They never influence behaviour.
+use std::cell::{Cell, RefCell};
+use std::string::String;
+use std::vec::Vec;
+
+thread_local! {
+    static VM_INSTRUCTIONS: Cell<u64> = const { Cell::new(0) };
+    static RUN_DEPTH: Cell<u32> = const { Cell::new(0) };
+    static MAX_RUN_DEPTH: Cell<u32> = const { Cell::new(0) };
+    static PARSER_ADVANCES: Cell<u64> = const { Cell::new(0) };
+    static LEXER_TOKENS: Cell<u64> = const { Cell::new(0) };
+    static STALE_EVENTS: RefCell<Vec<String>> = const { RefCell::new(Vec::new()) };
+}
+
+/// One bytecode instruction is about to execute.
+#[inline]
+pub fn count_instruction() {
+    VM_INSTRUCTIONS.with(|c| c.set(c.get() + 1));
+}
+
+/// A `BytecodeVM::run` loop was entered (nesting = native re-entry depth).
+pub fn enter_run() {
+    RUN_DEPTH.with(|c| {
+        c.set(c.get() + 1);
+        MAX_RUN_DEPTH.with(|m| m.set(m.get().max(c.get())));
+    });
+}
+
+pub fn leave_run() {
+    RUN_DEPTH.with(|c| c.set(c.get().saturating_sub(1)));
+}
+
+#[inline]
+pub fn count_parser_advance() {
+    PARSER_ADVANCES.with(|c| c.set(c.get() + 1));
+}
+
+#[inline]
+pub fn count_lexer_token() {
+    LEXER_TOKENS.with(|c| c.set(c.get() + 1));
+}
+
+/// A Gc handle was used after its slot had been swept / reused.
+pub fn stale_handle(event: &str, slot: usize) {
+    STALE_EVENTS.with(|v| {
+        let mut v = v.borrow_mut();
+        if v.len() < 64 {
+            v.push(std::format!("{} slot={}", event, slot));
+        }
+    });
+}
+
+/// Snapshot of all counters.
+#[derive(Debug, Clone, Default)]
+pub struct Counters {
+    pub vm_instructions: u64,
+    pub run_depth: u32,
+    pub max_run_depth: u32,
+    pub parser_advances: u64,
+    pub lexer_tokens: u64,
+    pub stale_events: Vec<String>,
+}
+
+pub fn snapshot() -> Counters {
+    Counters {
+        vm_instructions: VM_INSTRUCTIONS.with(|c| c.get()),
+        run_depth: RUN_DEPTH.with(|c| c.get()),
+        max_run_depth: MAX_RUN_DEPTH.with(|c| c.get()),
+        parser_advances: PARSER_ADVANCES.with(|c| c.get()),
+        lexer_tokens: LEXER_TOKENS.with(|c| c.get()),
+        stale_events: STALE_EVENTS.with(|v| v.borrow().clone()),
+    }
+}
+
+pub fn reset() {
+    VM_INSTRUCTIONS.with(|c| c.set(0));
+    RUN_DEPTH.with(|c| c.set(0));
+    MAX_RUN_DEPTH.with(|c| c.set(0));
+    PARSER_ADVANCES.with(|c| c.set(0));
+    LEXER_TOKENS.with(|c| c.set(0));
+    STALE_EVENTS.with(|v| v.borrow_mut().clear());
+}
